@@ -22,7 +22,10 @@ Abstractions (each one is exercised by the correspondence run of engine `api`):
   are lists of `*`, tags and a tag that never matches (the string level of
   precondition.go is engine `paths`, Model/Etag.lean).
 * Only the `description` (as its length) and `auto-subgroups` fields of a
-  definition are modelled besides users, wildcard user and keys.
+  definition are modelled besides users, wildcard user and keys — and the
+  legacy file format: the obsolete arrays `op`/`presenter`/`other` and
+  `allow-subgroups`, which `upgradeDescription` (`Desc.upgrade`) folds into
+  the modern fields whenever a file is read.
 * No group is live in memory (`group.Get` returns nil), the configuration and
   group files parse, time does not pass (a token is valid, expired, without
   expiry or not yet valid), the canonical host is unset.
@@ -107,13 +110,51 @@ def erase {β} (k : String) : List (String × β) → List (String × β)
 
 /-! ### Group definitions -/
 
+/-- an entry of one of the obsolete arrays `op` / `presenter` / `other` of a definition file
+(`ClientPattern`) -/
+structure Legacy where
+  role : String                        -- the permission the array stands for: "op", "present", "message"
+  name : String := ""                  -- "": no username (a wildcard entry)
+  password : Option Password := none   -- none: no password field (the nil `*Password`)
+  deriving DecidableEq, Repr, Inhabited
+
+/-- A definition as it is in a file (or in a request body).  `legacy` is `op ++ presenter ++ other`
+in file order, `allowSubLegacy` the obsolete `allow-subgroups`; both are empty/false in everything
+the server writes after `upgradeDescription` has run. -/
 structure Desc where
   content : Nat := 0
   autoSub : Bool := false
   users : List (String × User) := []
   wildcard : Option User := none
   keys : List Key := []
+  allowSubLegacy : Bool := false
+  legacy : List Legacy := []
   deriving DecidableEq, Repr, Inhabited
+
+/-- `upgradeUser`/`upgradePassword`: no password field means "any password" -/
+def upgradeUser (l : Legacy) : User := { password := l.password.getD .wildcard, perms := .named l.role }
+
+/-- one iteration of `upgradeUsers`: an entry without username becomes the wildcard user unless there
+is one; an entry with a username becomes that user unless there is one; otherwise it is dropped -/
+def upgradeStep (d : Desc) (l : Legacy) : Desc :=
+  if l.name = "" then
+    match d.wildcard with
+    | some _ => d
+    | none => { d with wildcard := some (upgradeUser l) }
+  else
+    match lookup l.name d.users with
+    | some _ => d
+    | none => { d with users := upsert l.name (upgradeUser l) d.users }
+
+/-- `upgradeDescription`: the arrays are folded into users (first wins, the `users` map wins over
+all of them) and then cleared, `allow-subgroups` becomes `auto-subgroups`. -/
+def Desc.upgrade (d : Desc) : Desc :=
+  { d.legacy.foldl upgradeStep d with
+    legacy := [], autoSub := d.autoSub || d.allowSubLegacy, allowSubLegacy := false }
+
+/-- what `GetSanitisedDescription` clears in its copy of the (upgraded) description — the obsolete
+arrays are NOT among it: that they are empty is `upgradeDescription`'s doing -/
+def Desc.sanitise (d : Desc) : Desc := { d with users := [], wildcard := none, keys := [] }
 
 structure GroupFile where
   desc : Desc
@@ -188,11 +229,14 @@ def getFileAux (gs : List (String × GroupFile)) (allowSub : Bool) : Nat → Str
 def getFile (gs : List (String × GroupFile)) (name : String) (allowSub : Bool) : Option (String × GroupFile × Bool) :=
   getFileAux gs allowSub (name.length + 2) name false
 
-/-- `readDescription`: `(file key, file, isSubgroup)`; a subgroup exists only below an auto-subgroups group. -/
+/-- `readDescription`: `(file key, file with the UPGRADED description, isSubgroup)`; a subgroup
+exists only below an auto-subgroups group. -/
 def readDescription (gs : List (String × GroupFile)) (name : String) (allowSub : Bool) : Option (String × GroupFile × Bool) :=
   match getFile gs name allowSub with
   | none => none
-  | some (k, f, isSub) => if isSub && !f.desc.autoSub then none else some (k, f, isSub)
+  | some (k, f, isSub) =>
+    let f' : GroupFile := { f with desc := f.desc.upgrade }
+    if isSub && !f'.desc.autoSub then none else some (k, f', isSub)
 
 /-- `GetDescription` when no group is live in memory. -/
 def getDescription (st : State) (name : String) : Option (String × GroupFile × Bool) :=
@@ -322,6 +366,7 @@ structure DescIn where
   hasUsers : Bool := false
   hasWildcard : Bool := false
   hasKeys : Bool := false
+  legacy : List Legacy := []      -- obsolete op/presenter/other arrays in the body: NOT tested by the sanitised check
   deriving DecidableEq, Repr, Inhabited
 
 /-- `UpdateDescription(name, etag, desc)`; `etag = none` is the empty tag. -/
@@ -336,8 +381,8 @@ def updateDescription (st : State) (name : String) (etag : Option Nat) (d : Desc
     if oldetag ≠ etag then .error .tagMismatch
     else
       let nd : Desc := match old with
-        | some (_, f, _) => { content := d.content, autoSub := d.autoSub, users := f.desc.users, wildcard := f.desc.wildcard, keys := f.desc.keys }
-        | none => { content := d.content, autoSub := d.autoSub }
+        | some (_, f, _) => { content := d.content, autoSub := d.autoSub, users := f.desc.users, wildcard := f.desc.wildcard, keys := f.desc.keys, legacy := d.legacy }
+        | none => { content := d.content, autoSub := d.autoSub, legacy := d.legacy }
       rewrite st key nd
 
 /-- `GetDescriptionTag` -/
@@ -637,10 +682,14 @@ structure Fixes where
   /-- P13: `tokensHandler` (PUT) tests `old != nil` before `old.Group`, so that the PUT of a token
   that does not exist creates it instead of dereferencing the nil token. -/
   p13 : Bool := false
+  /-- P25: `UpdateDescription` also refuses a description that carries the obsolete `op` /
+  `presenter` / `other` arrays ("description is not sanitised"), through which a PUT of a group
+  definition could otherwise add users. -/
+  p25 : Bool := false
   deriving DecidableEq, Repr, Inhabited
 
 /-- the state of the tree the engine is run against -/
-def currentFixes : Fixes := { p13 := true }
+def currentFixes : Fixes := { p13 := true, p25 := true }
 
 /-! #### The actions (after CORS and authorisation) -/
 
@@ -653,7 +702,7 @@ def finish (st : State) (res : Except Err State) (ok : Resp) : Outcome × State 
 
 def created (etag : Option Nat) : Resp := { status := if etag.isNone then 201 else 204 }
 
-def actGroup (st : State) (r : Request) (g : String) : Outcome × State :=
+def actGroup (fx : Fixes) (st : State) (r : Request) (g : String) : Outcome × State :=
   match r.method with
   | .GET | .HEAD =>
     match getDescription st g with
@@ -663,7 +712,7 @@ def actGroup (st : State) (r : Request) (g : String) : Outcome × State :=
       else match checkPreconditions r (some f.ver) with
         | some code => done st { status := code, etag := some f.ver }
         | none => done st (sendJSON r (some f.ver)
-            (.desc { content := f.desc.content, autoSub := f.desc.autoSub }))
+            (.desc f.desc.sanitise))
   | .PUT =>
     let etag := getDescriptionTag st g
     match checkPreconditions r etag with
@@ -675,7 +724,8 @@ def actGroup (st : State) (r : Request) (g : String) : Outcome × State :=
         let d : DescIn := match r.body with
           | .desc d => d
           | _ => {}
-        finish st (updateDescription st g etag d) (created etag)
+        if fx.p25 && !d.legacy.isEmpty then done st (httpError .other)
+        else finish st (updateDescription st g etag d) (created etag)
   | .DELETE =>
     match getDescriptionTag st g with
     | none => done st (httpError .notExist)
@@ -832,7 +882,7 @@ def act (fx : Fixes) (st : State) (r : Request) : Action → Outcome × State
   | .stats => if getHead r then done st (sendJSON r none .stats) else done st methodNotAllowed
   | .listGroups =>
     if getHead r then done st (sendJSON r none (.names (st.groups.map (·.1)) true)) else done st methodNotAllowed
-  | .group g => actGroup st r g
+  | .group g => actGroup fx st r g
   | .listUsers g =>
     if !getHead r then done st methodNotAllowed
     else match getDescription st g with
